@@ -181,6 +181,10 @@ func (s *DiscoveryStrategy) GetRoutableEndpoints(
 		), nil
 	}
 
+	// the caller handed us the candidates this request may use (a provider-scoped route
+	// passes only that provider's endpoints): the refreshed view must stay inside that set
+	updatedHealthy = restrictToCandidates(updatedHealthy, healthyEndpoints)
+
 	// note: we can't get updated model endpoints here without registry access
 	// in practice, the registry would need to be updated during discovery
 	// for now, fall back to all healthy endpoints after refresh
@@ -229,6 +233,22 @@ func (s *DiscoveryStrategy) GetRoutableEndpoints(
 			constants.RoutingReasonAllHealthyAfterDiscovery,
 		), nil
 	}
+}
+
+// restrictToCandidates keeps the refreshed endpoints that were among the candidates the
+// strategy was given, so a refresh can update their state but never widen the scope
+func restrictToCandidates(updated, candidates []*domain.Endpoint) []*domain.Endpoint {
+	allowed := make(map[string]struct{}, len(candidates))
+	for _, endpoint := range candidates {
+		allowed[endpoint.URLString] = struct{}{}
+	}
+	restricted := make([]*domain.Endpoint, 0, len(updated))
+	for _, endpoint := range updated {
+		if _, ok := allowed[endpoint.URLString]; ok {
+			restricted = append(restricted, endpoint)
+		}
+	}
+	return restricted
 }
 
 // rejectionReason keeps "not found" (404) apart from "unavailable" (503): a model that no
